@@ -745,6 +745,12 @@ bool GennaroJareckiKrawczykRabinDKG::Generate
 					cnt++;
 				}
 				while (cnt <= n);
+				// a party that does not answer every complaint is disqualified as well
+				if (cnt < complaints_counter[j])
+				{
+					err << "P_" << i << ": not all complaints answered in 1(d); complaint against P_" << j << std::endl;
+					complaints.push_back(j);
+				}
 			}
 		}
 		// 2. Each party the builds the set of non-disqualified parties $QUAL$.
